@@ -15,7 +15,7 @@
   (`inv*kernel` rounded before the convolution instead of the convolution output being scaled) is
   not visible over ℚ; the harness bounds it (2 ulp × fan-in) on the real code.
 
-  Fixed (PENDING-center): center=False used to raise (`inv * (bias - mean) + beta` with
+  Fixed (d42f1d8): center=False used to raise (`inv * (bias - mean) + beta` with
   `beta = None`); with `if beta is None: beta = 0.` the folded layers are total and equal
   conv → BatchNormalization(center=False) (C15_callable, C15_center_false_regression; C15_fold_identity
   has no hypothesis on beta any more).
@@ -272,7 +272,7 @@ theorem C15_unfold_model (rs : ℚ → ℚ) (x : T) (n n' : Net) (h : n.unfoldAl
     obtain ⟨a', ha, b', hb, rfl⟩ := h
     simp only [Net.eval, iha a' ha, ihb b' hb]
 
-/-- the unfolding of every network exists (center=False included, since PENDING-center) -/
+/-- the unfolding of every network exists (center=False included, since d42f1d8) -/
 theorem C15_unfold_model_exists (rs : ℚ → ℚ) (n : Net) : (n.unfoldAll rs).isSome := by
   induction n with
   | input => simp [Net.unfoldAll]
@@ -287,7 +287,7 @@ theorem C15_unfold_model_exists (rs : ℚ → ℚ) (n : Net) : (n.unfoldAll rs).
     obtain ⟨b', hb⟩ := Option.isSome_iff_exists.mp ihb
     simp [Net.unfoldAll, ha, hb]
 
-/-! ### 5. center=False (fixed: PENDING-center) -/
+/-! ### 5. center=False (fixed: d42f1d8) -/
 
 /-- FULL STATEMENT (was `C15_callable_partial` with hypothesis `beta.isSome`, next to
     `C15_center_false_counterexample`): the folded layer, its folded weights and its unfolding are
@@ -320,7 +320,7 @@ theorem C15_center_false_regression :
     carrying both parameter sets): the network function is unchanged, for every set `S` of fold
     sites, either folding mode, sequential or branched networks, arbitrary other layers.
     Hypothesis: the convs in front of batch norms are stock (no quantizer, linear activation);
-    center=False batch norms are fine since PENDING-center. -/
+    center=False batch norms are fine since d42f1d8. -/
 theorem C15_to_folded (S : ℕ → Bool) (mode : FoldMode) (rs : ℚ → ℚ) (x : T) (n : Net)
     (hf : n.foldable) : (n.fold S mode).eval rs x = n.eval rs x := by
   fun_induction Net.fold S mode n with
